@@ -12,7 +12,7 @@ PROPS = {
         level_text="Kernel-checked theorems (Props/C14.lean): for every TEID, payload (length+8 <= 65535), QFI < 64, PDU type < 16 the "
                    "model of Message.Encode yields bytes the independent TS 29.281/38.415 reference decoder reads back exactly; the model is "
                    "tied to internal/gtpv1/msg.go by an exhaustive differential run over the QFI x PDU-type x container grid and payload lengths, "
-                   "and the reference decoder is also run on the implementation's own bytes. container_qfi_only — the container is four octets with length field 1 and carries the six-bit QFI only (PPP / RQI clear), whatever else the QER says.",
+                   "and the reference decoder is also run on the implementation's own bytes. writePacket_length — the datagram is the payload plus exactly 12 (no QoS flow) or 16 octets, for every payload length (nothing rounded, nothing cut off); container_qfi_only — the container is four octets with length field 1 and carries the six-bit QFI only (PPP / RQI clear), whatever else the QER says.",
         level_note="Trusted: Lean kernel; the hand-written reference decoder (reading of TS 29.281 §5.1, TS 38.415 §5.5.2); the hand-written model "
                    "of msg.go (checked against the implementation on every run, not proved equal); harness + upfdrv. "
                    "The message WritePacket assembles is observed on the wire: the S-full 'buf' stream (real Gtp5g.WritePacket, UDP sink as gNB) compares every re-injected datagram "
@@ -126,7 +126,7 @@ PROPS["C05"] = dict(
     trusted_base=_CTL_TB + ["below the driver seam: the real perio.Server of the 'perio' stream (injected ticks), with the predicate 'removing one session's periodic URR leaves the registrations of every other session' (Driver/Perio.lean checkOthers)"], assumptions=_CTL_ASSUME,
     level_text="Kernel-checked (Props/C05.lean): driver calls of a Modification/Deletion Request carry the addressed SEID; the request rewrites only that session's "
                "slot (every other SEID resolves to the same value: rules, counters, queues); re-association touches only SEIDs in the node's own set; SEID-0 removal "
-               "matches CP SEID and node address. Tie: S-ctl 'nodes' + frame predicates on the implementation's dumps. seid0_complete — the SEID-0 search finds a session with the answered request's control-plane SEID and the responder's address whenever one is live, however many sessions of other nodes carry the same control-plane SEID and wherever they sit in the table. reset_sweeps — after a re-association every SEID of the node's own set resolves to nothing, whatever order the sessions are closed in and whatever the data plane answers (with reset_frame: and no other SEID is touched).",
+               "matches CP SEID and node address. Tie: S-ctl 'nodes' + frame predicates on the implementation's dumps. seid0_complete — the SEID-0 search finds a session with the answered request's control-plane SEID and the responder's address whenever one is live, however many sessions of other nodes carry the same control-plane SEID and wherever they sit in the table. del_unresolves — after a Session Deletion Request for a live session its SEID resolves to nothing; reset_sweeps — after a re-association every SEID of the node's own set resolves to nothing, whatever order the sessions are closed in and whatever the data plane answers (with reset_frame: and no other SEID is touched).",
     level_note="Trusted: as C01. The frame theorems are about the node OBJECT registered under an id (what the code keys on). The external ownership predicate reads the statement by the requests: a session "
                "belongs to the node id of its Establishment Request, later to the node id of a Modification Request that takes THAT session over; re-association of N must remove exactly those. "
                "The code's takeover renames the whole node object and can orphan a registered node: known finding takeoverNode (signature only in histories that contain a takeover; corpus/nodes.cases witnesses it on every run; Props/C05.takeover_orphans proves the witness on the model by evaluation).",
